@@ -57,6 +57,9 @@ LEVEL_TEXT = ("Seeded histories on stored containers (all families, 4 kinds, "
 ASSUMPTIONS = ["commit writes exactly the objects that called register() "
                "plus objects newly reachable from them (ZODB's rule)"]
 
+FAILABLE = ("set", "del", "insert", "setdefault", "pop", "popd", "popitem",
+            "update", "clear", "add", "sinsert", "remove", "discard", "spop",
+            "supdate", "ior", "iand", "isub", "ixor")
 ENDS = ["commit", "commit", "commit", "commit", "abort", "crash", "crash2pc"]
 
 
@@ -79,6 +82,21 @@ def plan(rng, tier):
         cfg["dom"]["vflavor"] = "mlist"
         cfg["dom"]["vnone"] = False
         mlist = True
+    # operations that FAIL half-way (fault kinds of C14 / C17 inside C04's
+    # world): the n-th key comparison of a write raises (object keys of the
+    # hooked class), or the n-th allocation of a write fails (C build, guarded
+    # hook).  Whatever such a call did change must be announced like any other
+    # change -- the oracles stay reader == writer and record == memory.
+    ffault = None
+    if not pre and not mlist and rng.random() < 0.3:
+        if cfg["dom"]["fam"][0] == "O" and rng.random() < 0.6:
+            ffault = "cmp"
+            cfg["dom"]["kflavor"] = "hk"
+            cfg["dom"].pop("none", None)
+            cfg["dom"]["ext"] = False
+        elif cfg["impl"] == "c":
+            ffault = "alloc"
+    cfg["ffault"] = ffault
     dom = Domain(cfg["dom"])
     g = common.Gen(rng, dom, cfg["kind"])
     out = []
@@ -123,7 +141,15 @@ def plan(rng, tier):
                     # v = t[k]; v.append(..); t[k] = v  (the same object)
                     out.append(["remut", rng.choice(g.model.skeys())])
                 else:
-                    out.append(g.op())
+                    o = g.op()
+                    if ffault and o[0] in FAILABLE and rng.random() < 0.3:
+                        if rng.random() < 0.5:
+                            # everything off the path is a ghost: loading a
+                            # node is one of the things that can fail
+                            out.append(["sweep", "minimize", 0])
+                        o = ["faulty", ffault,
+                             rng.randint(1, 14 if ffault == "cmp" else 8), o]
+                    out.append(o)
                 if rng.random() < 0.12:
                     out.append(_sweep(rng))
         left -= k
@@ -158,6 +184,11 @@ def simplify(plan):
         if o[0] in ("abort", "crash", "crash2pc"):
             p = copy.deepcopy(plan)
             p["ops"][i] = ["commit"]
+            yield p
+    for i, o in enumerate(plan["ops"]):
+        if o[0] == "faulty":
+            p = copy.deepcopy(plan)
+            p["ops"][i] = o[3]
             yield p
 
 
@@ -388,6 +419,21 @@ def execute(plan, ctx):
                 got = ("ok", None)
             except Exception as e:
                 got = ops.norm_exc(e)
+        elif name == "faulty":
+            got = _faulty(op, c, dom, impl, kind, ctx)
+            name = op[3][0]
+            if got[0] == "exc":
+                # whether the failed call left the container sound is C14's
+                # and C17's business, not this property's: a run in which it
+                # did not is given up here (and counted)
+                try:
+                    wd.listing(c)
+                    if is_tree(kind):
+                        c._check()
+                except Exception:
+                    ctx.probe("abandoned:container-damaged-by-failed-call")
+                    raise Precondition("failed call left the container "
+                                       "damaged (C14 / C17)")
         else:
             got = ops.apply(c, op, dom, impl, kind)
         nops += 1
@@ -402,6 +448,46 @@ def execute(plan, ctx):
                     trans.add(t)
                     ctx.probe(t)
                 prev_walk = wk
+
+
+def _faulty(op, c, dom, impl, kind, ctx):
+    """the operation op[3] with its op[2]-th key comparison raising / its
+    op[2]-th allocation failing (if it makes that many)"""
+    import sys
+    from .. import keys
+    _, fk, n, inner = op
+    if fk == "cmp":
+        def boom():
+            raise keys.SimCompareError("injected")
+        ops.PRECALL = lambda: keys.HOOK.arm(n, boom)
+        ops.POSTCALL = keys.HOOK.disarm
+        try:
+            got = ops.apply(c, inner, dom, impl, kind)
+        finally:
+            ops.PRECALL = ops.POSTCALL = None
+            fired = keys.HOOK.fired
+            keys.HOOK.disarm()
+        if fired:
+            ctx.fault("cmp-raise")
+            ctx.probe("failed-op-" + got[0])
+        return got
+    cm = sys.modules["BTrees._%sBTree" % dom.fam]
+    fired = [0]
+
+    def post():
+        fired[0] = cm._verif_alloc_stats()[1]
+        cm._verif_alloc_arm(0)
+    ops.PRECALL = lambda: cm._verif_alloc_arm(n)
+    ops.POSTCALL = post
+    try:
+        got = ops.apply(c, inner, dom, impl, kind)
+    finally:
+        ops.PRECALL = ops.POSTCALL = None
+        cm._verif_alloc_arm(0)
+    if fired[0]:
+        ctx.fault("alloc-fail")
+        ctx.probe("failed-op-" + got[0])
+    return got
 
 
 def _unannounced(wd, ctx):
